@@ -356,6 +356,8 @@ pub struct SyncParams {
     pub late_spawn: bool,
     /// child threads may join earlier children
     pub child_joins: bool,
+    /// after joining every thread main reads the protected values through get_mut / into_inner
+    pub final_exclusive: bool,
     /// data-dependent control flow: `get / load ; skip_next_unless(v) ; <op>`
     pub conditionals: bool,
     /// main may join a child in the middle of its body (e.g. while holding a guard) instead of at the end
@@ -717,6 +719,22 @@ pub fn sync_prog(s: &mut Src, p: &SyncParams) -> Program {
                     main.push(Op::Join { t: t as u8 });
                 }
             }
+        }
+    }
+    if p.final_exclusive && p.joins && !p.child_joins {
+        // every child is joined by main at this point (conditional joins may have been skipped: join again)
+        for t in 1..nth {
+            main.push(Op::Join { t: t as u8 });
+        }
+        for m in 0..nmtx {
+            main.push(if s.chance(1, 2) { Op::MtxGetMut { m: m as u8 } } else { Op::MtxIntoInner { m: m as u8 } });
+        }
+        if p.rwlock {
+            main.push(if s.chance(1, 2) { Op::RwGetMut { r: 0 } } else { Op::RwIntoInner { r: 0 } });
+        }
+        if s.chance(1, 2) && nmtx > 0 {
+            // the slot must still work after into_inner / get_mut
+            main.extend([Op::Lock { m: 0 }, Op::Incr { m: 0 }, Op::Unlock { m: 0 }, Op::MtxGetMut { m: 0 }]);
         }
     }
     threads[0] = main;
